@@ -27,7 +27,7 @@ static _Atomic int in_seq;         /* 1 while the sequential reference runs */
 /* ---- the simulation inside a trial ------------------------------------- */
 struct world {
     struct cmb_resource *res; struct cmb_resourcepool *pool; struct cmb_buffer *buf; struct cmb_condition *cond;
-    int flag; uint64_t h; double acc[4]; uint64_t nev; int steps;
+    int flag; uint64_t h; double acc[4]; uint64_t nev; int steps; int lattice;
     struct cmb_process *cust[12]; int ncust;
 };
 static _Thread_local struct world *W;
@@ -40,14 +40,15 @@ static void *customer(struct cmb_process *me, void *ctx)
 {
     int id = (int)(intptr_t)ctx;
     for (int s = 0; s < W->steps; s++) {
-        int64_t sig = cmb_process_hold(cmb_random_exponential(1.0 + 0.1 * id));
+        /* half of the trials use lattice durations so that equal priorities meet at equal times in the waiting lists (exact ties) */
+        int64_t sig = cmb_process_hold(W->lattice ? 0.5 * (double)cmb_random_dice(0, 2) : cmb_random_exponential(1.0 + 0.1 * id));
         hmix((uint64_t)sig + 17); hmixd(cmb_time()); W->nev++;
         switch (cmb_random_dice(0, 5)) {
         case 0: case 1: {
             sig = cmb_resource_acquire(W->res);
             hmix((uint64_t)sig + 1); hmixd(cmb_time());
             if (sig == CMB_PROCESS_SUCCESS) {
-                sig = cmb_process_hold(cmb_random_gamma(cmb_random_flip() ? 2.0 : 0.7, 0.5));
+                sig = cmb_process_hold(W->lattice ? (double)cmb_random_flip() : cmb_random_gamma(cmb_random_flip() ? 2.0 : 0.7, 0.5));
                 hmix((uint64_t)sig + 2);
                 if (cmb_resource_held_by_process(W->res, me)) cmb_resource_release(W->res);
                 W->acc[0] += cmb_time() * 1e-3;
@@ -91,13 +92,13 @@ static void run_sim(uint64_t seed, uint32_t len, struct res *out)
     cmb_logger_flags_off(CMB_LOGGER_INFO | CMB_LOGGER_WARNING);
     cmb_random_initialize(seed);
     cmb_event_queue_initialize(0.0);
-    w.h = 0xcbf29ce484222325ull ^ seed; w.steps = (int)len; w.ncust = 3 + (int)(seed % 8);
+    w.h = 0xcbf29ce484222325ull ^ seed; w.steps = (int)len; w.ncust = 3 + (int)(seed % 8); w.lattice = (int)((seed >> 8) & 1);
     w.res = cmb_resource_create(); cmb_resource_initialize(w.res, "R");
     w.pool = cmb_resourcepool_create(); cmb_resourcepool_initialize(w.pool, "P", 4);
     w.buf = cmb_buffer_create(); cmb_buffer_initialize(w.buf, "B", 10);
     w.cond = cmb_condition_create(); cmb_condition_initialize(w.cond, "C");
     cmb_resource_start_recording(w.res);
-    for (int k = 0; k < w.ncust; k++) { char nm[16]; snprintf(nm, sizeof nm, "c%d", k); w.cust[k] = cmb_process_create(); cmb_process_initialize(w.cust[k], nm, customer, (void *)(intptr_t)k, cmb_random_dice(-2, 2)); cmb_process_start(w.cust[k]); }
+    for (int k = 0; k < w.ncust; k++) { char nm[16]; snprintf(nm, sizeof nm, "c%d", k); w.cust[k] = cmb_process_create(); cmb_process_initialize(w.cust[k], nm, customer, (void *)(intptr_t)k, w.lattice ? cmb_random_dice(0, 1) : cmb_random_dice(-2, 2)); cmb_process_start(w.cust[k]); }
     cmb_event_schedule(end_sim, NULL, NULL, 5.0 + 3.0 * (double)len, 0);
     uint64_t guard = 0;
     while (cmb_event_execute_next()) { if (++guard > 2000000) { hmix(0xBAD); break; } }
